@@ -331,4 +331,107 @@ theorem supplyLeaf_ok (W : World Node VH V) (hOK : W.OK) (s : Sys Node VH V) (hs
           simp only [setReq, List.set_set]
           exact this
 
+/-! ### runs: any sequence of operations, in any order, for any number of interleaved keys -/
+
+/-- what the environment (the `Seeker`'s multiplexing, the I/O pool, the harness) may do next -/
+inductive Action where
+  | push (key : Key)
+  | step (i : Nat)
+  | supplyPage (i : Nat)
+  | supplyLeaf (i : Nat)
+
+/-- one operation; an operation that does not apply (no such request, nothing awaited) changes nothing -/
+def exec (env : Env Node VH V) (s : Sys Node VH V) : Action → Outcome Unit (Sys Node VH V)
+  | .push key => push env s key
+  | .step i =>
+    match step env s i with
+    | .ok (s', _) => .ok s'
+    | .err _ => .ok s
+    | .panic m => .panic m
+  | .supplyPage i =>
+    match supplyPage env s i with
+    | .ok s' => .ok s'
+    | .err _ => .ok s
+    | .panic m => .panic m
+  | .supplyLeaf i =>
+    match supplyLeaf env s i with
+    | .ok s' => .ok s'
+    | .err _ => .ok s
+    | .panic m => .panic m
+
+def run (env : Env Node VH V) : Sys Node VH V → List Action → Outcome Unit (Sys Node VH V)
+  | s, [] => .ok s
+  | s, a :: as =>
+    match exec env s a with
+    | .ok s' => run env s' as
+    | .err e => .err e
+    | .panic m => .panic m
+
+/-- the keys handed to `push` are key paths -/
+def ActsOK : List Action → Prop
+  | [] => True
+  | .push key :: as => key.length = KEY_BITS ∧ ActsOK as
+  | _ :: as => ActsOK as
+
+theorem exec_ok (W : World Node VH V) (hOK : W.OK) (s : Sys Node VH V) (hs : SysInv W s) (a : Action)
+    (ha : ∀ key, a = .push key → key.length = KEY_BITS) : ∃ s', exec W.env s a = .ok s' ∧ SysInv W s' := by
+  cases a with
+  | push key =>
+    obtain ⟨s', e1, e2, _⟩ := push_ok W hOK s hs key (ha key rfl)
+    exact ⟨s', e1, e2⟩
+  | step i =>
+    rcases step_ok W hOK s hs i with ⟨s', out, e1, e2⟩ | e1
+    · exact ⟨s', by simp only [exec, e1], e2⟩
+    · exact ⟨s, by simp only [exec, e1], hs⟩
+  | supplyPage i =>
+    rcases supplyPage_ok W hOK s hs i with ⟨s', e1, e2⟩ | e1
+    · exact ⟨s', by simp only [exec, e1], e2⟩
+    · exact ⟨s, by simp only [exec, e1], hs⟩
+  | supplyLeaf i =>
+    rcases supplyLeaf_ok W hOK s hs i with ⟨s', e1, e2⟩ | e1
+    · exact ⟨s', by simp only [exec, e1], e2⟩
+    · exact ⟨s, by simp only [exec, e1], hs⟩
+
+theorem run_ok (W : World Node VH V) (hOK : W.OK) : ∀ (acts : List Action) (s : Sys Node VH V), SysInv W s → ActsOK acts →
+    ∃ s', run W.env s acts = .ok s' ∧ SysInv W s' := by
+  intro acts
+  induction acts with
+  | nil => intro s hs _; exact ⟨s, rfl, hs⟩
+  | cons a as ih =>
+    intro s hs ha
+    have ha1 : ∀ key, a = .push key → key.length = KEY_BITS := by
+      intro key e; subst e; exact ha.1
+    have ha2 : ActsOK as := by
+      cases a with
+      | push key => exact ha.2
+      | step i => exact ha
+      | supplyPage i => exact ha
+      | supplyLeaf i => exact ha
+    obtain ⟨s1, e1, h1⟩ := exec_ok W hOK s hs a ha1
+    obtain ⟨s2, e2, h2⟩ := ih s1 h1 ha2
+    exact ⟨s2, by unfold run; rw [e1]; exact e2, h2⟩
+
+/-- what the invariant says about a completed request -/
+theorem completed_result {W : World Node VH V} {ps : PageSet Node} {r : Req Node VH V} {aw : Option Query}
+    (h : ReqOK W ps r aw) {res : SeekRes Node VH} (hres : r.result = some res) :
+    resultProof res.pos res.sibs res.terminal =
+      (if W.env.record then proveSpec W.H KEY_BITS W.view r.key
+       else { proveSpec W.H KEY_BITS W.view r.key with siblings := [] }) ∧
+    res.pos.path = r.key.take res.pos.depth ∧
+    res.pageId = (if res.pos.depth = 0 then none else some (specPage res.pos.path)) := by
+  obtain ⟨ht, hpid, hst⟩ := h
+  unfold Req.result at hres
+  unfold StOK at hst
+  cases hs : r.st with
+  | completed t =>
+    rw [hs] at hres hst
+    cases hres
+    refine ⟨hst.2, ht.path, ?_⟩
+    simp only
+    rw [ht.path]
+    exact hpid
+  | seeking => rw [hs] at hres; cases hres
+  | fetchingLeaf dels it needed => rw [hs] at hres; cases hres
+  | fetchingLeaves page range it needed coll => rw [hs] at hres; cases hres
+
 end Nomt.Seek
